@@ -9,6 +9,10 @@ CHECKS = {
    note="Trusts pyarrow's filter evaluation as the un-pruned reference answer (C12 checks that against SQL semantics) and fastavro/json for the independent manifest read. Literals are restricted to types comparable with the column.",
    technique="property-based testing (Hypothesis) + exhaustive small-domain enumeration, metamorphic oracle (pruning on vs off) and bounds round-trip", design="3/C13"),
 }
+CHECKS["C12"] = dict(level="exploration",
+   text="Generated tables (all primitive column types, NULL/NaN/inf, empty and many files) x filters from the full operator/alias grammar x projection, each evaluated through 6 read APIs x checksum verification on/off; every returned multiset must equal a plain-Python three-valued (SQL NULL, IEEE NaN) reference evaluator over independently read rows, all APIs must agree, well-formed same-type filters must not raise and malformed filters must raise in every API. Sampled search with shrinking; no exhaustiveness claimed.",
+   note="Reference is deliberately silent (differential only) for NaN inside an in/not_in value set and for literals of an incomparable type; cross-type numeric literals may raise. Rows 'as stored' come from an independent pyarrow.parquet read, so value conversion at append time is C11's subject, not C12's.",
+   technique="property-based testing (Hypothesis) against a reference evaluator + differential across read APIs", design="3/C12")
 NOT_YET = {}
 
 def main():
